@@ -1,4 +1,693 @@
 (* Facts about model/SiftCore.v and model/Toys.v (properties C01, C03, C04). *)
 From Coq Require Import ZArith QArith List Bool Lia Arith.
-From EmdV Require Import lib.NpLite model.Extrema model.SiftCore model.Toys.
+From EmdV Require Import lib.NpLite model.Extrema model.SiftCore model.Toys proofs.ExtremaFacts.
 Import ListNotations.
+
+(* ---- helpers on the stopping method ------------------------------------------------------- *)
+Lemma method_dec : forall m : stop_method, m = Fixed \/ m <> Fixed.
+Proof. intros m; destruct m; [right; discriminate|right; discriminate|left; reflexivity]. Qed.
+
+Lemma is_fixed_true_iff : forall m, is_fixed m = true <-> m = Fixed.
+Proof. intros m; destruct m; cbn; split; congruence. Qed.
+
+Lemma is_fixed_false_iff : forall m, is_fixed m = false <-> m <> Fixed.
+Proof. intros m; destruct m; cbn; split; congruence. Qed.
+
+Section ExtractionFacts.
+  Variable V : Type.
+  Variable vsub : V -> V -> V.
+  Variable vstep : V -> V.
+  Variable vavg : V -> V -> V.
+  Variable envs : V -> option (V * V).
+  Variable stop_sd stop_ril : V -> V -> bool.
+  Variable energy_fires : V -> V -> bool.
+  Variable method : stop_method.
+  Variable max_iters : nat.
+  Variable use_energy : bool.
+
+  Local Notation loopg := (gni_loop V vsub vstep vavg envs stop_sd stop_ril method max_iters).
+  Local Notation loop := (gni_loop V vsub vstep vavg envs stop_sd stop_ril method max_iters false (max_iters + 2) 0).
+  Local Notation iter := (iterate V vsub vstep vavg envs).
+  Local Notation fires := (fires_at V vsub vavg envs stop_sd stop_ril method max_iters).
+  Local Notation unfired := (unfired_upto V vsub vstep vavg envs stop_sd stop_ril method max_iters).
+  Local Notation sfires := (stop_fires V stop_sd stop_ril method max_iters).
+  Local Notation in_range := (method = Fixed -> (1 <= max_iters)%nat).
+
+  Lemma ltb_flag : forall k, (1 <? S k)%nat = (0 <? k)%nat.
+  Proof. intros k. reflexivity. Qed.
+
+  Lemma unfired_weaken : forall k j X, (j <= k)%nat -> unfired k X -> unfired j X.
+  Proof. intros k j X Hjk Hu i Hi. apply Hu. lia. Qed.
+
+  Lemma unfired_0 : forall X, unfired 0 X.
+  Proof. intros X j Hj. lia. Qed.
+
+  Lemma unfired_step : forall k X x u l, unfired k X -> iter k X = Some x -> envs x = Some (u, l) ->
+    fires k x = false -> unfired (S k) X.
+  Proof.
+    intros k X x u l Hu Hi He Hf j Hj.
+    destruct (Nat.eq_dec j k) as [->|Hne].
+    - exists x, u, l. auto.
+    - apply Hu. lia.
+  Qed.
+
+  Lemma iterate_S : forall k X x u l, iter k X = Some x -> envs x = Some (u, l) ->
+    iter (S k) X = Some (vsub x (vstep (vavg u l))).
+  Proof. intros k X x u l Hi He. cbn [iterate]. rewrite Hi, He. reflexivity. Qed.
+
+  Lemma iterate_S_inv : forall k X y, iter (S k) X = Some y ->
+    exists x u l, iter k X = Some x /\ envs x = Some (u, l) /\ y = vsub x (vstep (vavg u l)).
+  Proof.
+    intros k X y H. cbn [iterate] in H.
+    destruct (iter k X) as [x|] eqn:Hi; [|discriminate].
+    destruct (envs x) as [[u l]|] eqn:He; [|discriminate].
+    exists x, u, l. inversion H. auto.
+  Qed.
+
+  Lemma iterate_prefix : forall k X y, iter k X = Some y -> forall j, (j < k)%nat ->
+    exists x u l, iter j X = Some x /\ envs x = Some (u, l).
+  Proof.
+    induction k as [|k IH]; intros X y H j Hj; [lia|].
+    destruct (iterate_S_inv k X y H) as (x & u & l & Hi & He & _).
+    destruct (Nat.eq_dec j k) as [->|Hne].
+    - exists x, u, l. auto.
+    - apply (IH X x Hi). lia.
+  Qed.
+
+  (* the generalised loop invariant *)
+  Lemma loop_inv : forall v0 fuel k x X,
+    iter k X = Some x -> unfired k X ->
+    (max_iters + 2 <= fuel + k)%nat ->
+    (method = Fixed -> (k < max_iters)%nat) ->
+    (method <> Fixed -> (k <= max_iters + 1)%nat) ->
+    (exists k' x' u l, iter k' X = Some x' /\ envs x' = Some (u, l) /\ unfired k' X /\ fires k' x' = true /\
+        (method <> Fixed -> (k' <= max_iters)%nat) /\ (method = Fixed -> S k' = max_iters) /\
+        loopg v0 fuel k x = Imf (vsub x' (vavg u l)) true (S k'))
+    \/ (exists k' x', iter k' X = Some x' /\ envs x' = None /\ unfired k' X /\
+         (method <> Fixed -> (k' <= max_iters)%nat) /\ (method = Fixed -> (k' < max_iters)%nat) /\
+         loopg v0 fuel k x = Imf x' (if v0 then false else (0 <? k')%nat) (S k'))
+    \/ (method <> Fixed /\ unfired (S max_iters) X /\ loopg v0 fuel k x = ConvergeError (S max_iters)).
+  Proof.
+    intros v0. induction fuel as [|f IH]; intros k x X Hi Hu Hfuel HbF HbN.
+    - exfalso. destruct (method_dec method) as [Hf|Hn]; [specialize (HbF Hf)|specialize (HbN Hn)]; lia.
+    - cbn [gni_loop].
+      destruct (negb (is_fixed method) && (max_iters <? k)%nat) eqn:Ec.
+      + apply andb_true_iff in Ec. destruct Ec as [Ec1 Ec2].
+        apply negb_true_iff in Ec1. apply is_fixed_false_iff in Ec1.
+        apply Nat.ltb_lt in Ec2. specialize (HbN Ec1).
+        assert (k = S max_iters) as -> by lia.
+        right. right. auto.
+      + assert (HkN : method <> Fixed -> (k <= max_iters)%nat).
+        { intros Hn. apply andb_false_iff in Ec. destruct Ec as [Ec|Ec].
+          - apply negb_false_iff in Ec. apply is_fixed_true_iff in Ec. contradiction.
+          - apply Nat.ltb_ge in Ec. exact Ec. }
+        destruct (envs x) as [[u l]|] eqn:Ee.
+        * destruct (sfires (S k) x (vsub x (vavg u l)) u l) eqn:Es.
+          -- left. exists k, x, u, l. repeat split; auto.
+             ++ unfold fires_at. rewrite Ee. exact Es.
+             ++ intros Hf. unfold stop_fires in Es. rewrite Hf in Es. apply Nat.eqb_eq in Es. exact Es.
+          -- apply IH.
+             ++ apply iterate_S; assumption.
+             ++ apply (unfired_step k X x u l); auto. unfold fires_at. rewrite Ee. exact Es.
+             ++ lia.
+             ++ intros Hf. specialize (HbF Hf). unfold stop_fires in Es. rewrite Hf in Es.
+                apply Nat.eqb_neq in Es. lia.
+             ++ intros Hn. specialize (HkN Hn). lia.
+        * right. left. exists k, x. repeat split; auto.
+  Qed.
+
+  Lemma run_forward : forall v0 F X k x,
+    iter k X = Some x -> unfired k X ->
+    (method <> Fixed -> (k <= max_iters + 1)%nat) -> (k <= F)%nat ->
+    loopg v0 F 0 X = loopg v0 (F - k) k x.
+  Proof.
+    intros v0 F X. induction k as [|k IH]; intros x Hi Hu Hb HF.
+    - cbn in Hi. inversion Hi; subst. rewrite Nat.sub_0_r. reflexivity.
+    - destruct (Hu k (Nat.lt_succ_diag_r k)) as (xk & u & l & Hik & Hek & Hfk).
+      cbn [iterate] in Hi. rewrite Hik, Hek in Hi. inversion Hi; subst x. clear Hi.
+      rewrite (IH xk Hik); [| apply (unfired_weaken (S k)); auto | intros Hn; specialize (Hb Hn); lia | lia].
+      replace (F - k)%nat with (S (F - S k)) by lia.
+      cbn [gni_loop].
+      assert (negb (is_fixed method) && (max_iters <? k)%nat = false) as ->.
+      { destruct (method_dec method) as [Hf|Hn].
+        - apply is_fixed_true_iff in Hf. rewrite Hf. reflexivity.
+        - specialize (Hb Hn). apply andb_false_intro2. apply Nat.ltb_ge. lia. }
+      rewrite Hek. unfold fires_at in Hfk. rewrite Hek in Hfk. rewrite Hfk. reflexivity.
+  Qed.
+
+  Lemma gni_cases_strong : forall v0 X, in_range ->
+    (exists k x u l, iter k X = Some x /\ envs x = Some (u, l) /\ unfired k X /\ fires k x = true /\
+        (method <> Fixed -> (k <= max_iters)%nat) /\ (method = Fixed -> S k = max_iters) /\
+        loopg v0 (max_iters + 2) 0 X = Imf (vsub x (vavg u l)) true (S k))
+    \/ (exists k x, iter k X = Some x /\ envs x = None /\ unfired k X /\
+         (method <> Fixed -> (k <= max_iters)%nat) /\ (method = Fixed -> (k < max_iters)%nat) /\
+         loopg v0 (max_iters + 2) 0 X = Imf x (if v0 then false else (0 <? k)%nat) (S k))
+    \/ (method <> Fixed /\ unfired (S max_iters) X /\ loopg v0 (max_iters + 2) 0 X = ConvergeError (S max_iters)).
+  Proof.
+    intros v0 X Hr. apply loop_inv.
+    - reflexivity.
+    - apply unfired_0.
+    - lia.
+    - intros Hf. specialize (Hr Hf). lia.
+    - intros _. lia.
+  Qed.
+
+  Lemma gni_result_cases : forall X, in_range ->
+    (exists k x u l, iter k X = Some x /\ envs x = Some (u, l) /\ unfired k X /\ fires k x = true /\
+                     (method <> Fixed -> (k <= max_iters)%nat) /\
+                     loop X = Imf (vsub x (vavg u l)) true (S k))
+    \/ (exists k x, iter k X = Some x /\ envs x = None /\ unfired k X /\
+                    (method <> Fixed -> (k <= max_iters)%nat) /\
+                    loop X = Imf x (0 <? k)%nat (S k))
+    \/ (method <> Fixed /\ unfired (S max_iters) X /\ loop X = ConvergeError (S max_iters)).
+  Proof.
+    intros X Hr.
+    destruct (gni_cases_strong false X Hr) as [(k & x & u & l & H1 & H2 & H3 & H4 & H5 & _ & H7)
+                                        |[(k & x & H1 & H2 & H3 & H4 & _ & H6)|H]].
+    - left. exists k, x, u, l. auto 10.
+    - right. left. exists k, x. auto 10.
+    - right. right. exact H.
+  Qed.
+
+  Lemma gni_never_out_of_fuel : forall X, in_range -> loop X <> GniOutOfFuel.
+  Proof.
+    intros X Hr.
+    destruct (gni_result_cases X Hr) as [(k & x & u & l & _ & _ & _ & _ & _ & H)
+                                        |[(k & x & _ & _ & _ & _ & H)|(_ & _ & H)]]; rewrite H; discriminate.
+  Qed.
+
+  Lemma gni_iteration_bound : forall X p f n, in_range ->
+    loop X = Imf p f n -> (n <= max_iters + 1)%nat /\ (method = Fixed -> (n <= max_iters)%nat).
+  Proof.
+    intros X p f n Hr HL.
+    destruct (gni_cases_strong false X Hr) as [(k & x & u & l & H1 & H2 & H3 & H4 & H5 & H6 & H7)
+                                        |[(k & x & H1 & H2 & H3 & H4 & H5 & H6)|(_ & _ & H)]];
+      [rewrite H7 in HL | rewrite H6 in HL | rewrite H in HL; discriminate];
+      inversion HL; subst; clear HL.
+    - destruct (method_dec method) as [Hf|Hn].
+      + specialize (H6 Hf). split; [lia|intros _; lia].
+      + specialize (H5 Hn). split; [lia|intros Hf; contradiction].
+    - destruct (method_dec method) as [Hf|Hn].
+      + specialize (H5 Hf). split; [lia|intros _; lia].
+      + specialize (H4 Hn). split; [lia|intros Hf; contradiction].
+  Qed.
+
+  Lemma gni_first_stop : forall X k x u l, method <> Fixed -> (k <= max_iters)%nat ->
+    iter k X = Some x -> envs x = Some (u, l) -> unfired k X -> fires k x = true ->
+    loop X = Imf (vsub x (vavg u l)) true (S k).
+  Proof.
+    intros X k x u l Hn Hk Hi He Hu Hf.
+    rewrite (run_forward false (max_iters + 2) X k x Hi Hu); [|intros _; lia|lia].
+    replace (max_iters + 2 - k)%nat with (S (max_iters + 1 - k)) by lia.
+    cbn [gni_loop].
+    assert (negb (is_fixed method) && (max_iters <? k)%nat = false) as ->.
+    { apply andb_false_intro2. apply Nat.ltb_ge. lia. }
+    rewrite He. unfold fires_at in Hf. rewrite He in Hf. rewrite Hf. reflexivity.
+  Qed.
+
+  Lemma gni_fixed_count : forall X x u l, method = Fixed -> (1 <= max_iters)%nat ->
+    iter (max_iters - 1) X = Some x -> envs x = Some (u, l) ->
+    loop X = Imf (vsub x (vavg u l)) true max_iters.
+  Proof.
+    intros X x u l Hf Hm Hi He.
+    assert (Hu : unfired (max_iters - 1) X).
+    { intros j Hj. destruct (iterate_prefix _ _ _ Hi j Hj) as (xj & uj & lj & Hij & Hej).
+      exists xj, uj, lj. repeat split; auto.
+      unfold fires_at. rewrite Hej. unfold stop_fires. rewrite Hf. apply Nat.eqb_neq. lia. }
+    rewrite (run_forward false (max_iters + 2) X _ x Hi Hu); [|intros Hn; contradiction|lia].
+    replace (max_iters + 2 - (max_iters - 1))%nat with 3%nat by lia.
+    cbn [gni_loop].
+    assert (is_fixed method = true) as -> by (apply is_fixed_true_iff; exact Hf).
+    cbn [negb andb]. rewrite He. unfold stop_fires. rewrite Hf.
+    replace (S (max_iters - 1)) with max_iters by lia.
+    rewrite Nat.eqb_refl. reflexivity.
+  Qed.
+
+  Lemma gni_first_without_envelopes : forall X k x, (method <> Fixed -> (k <= max_iters)%nat) ->
+    (method = Fixed -> (k < max_iters)%nat) ->
+    iter k X = Some x -> envs x = None -> unfired k X ->
+    loop X = Imf x (0 <? k)%nat (S k).
+  Proof.
+    intros X k x HbN HbF Hi He Hu.
+    assert (Hk : (k <= max_iters)%nat).
+    { destruct (method_dec method) as [Hf|Hn]; [specialize (HbF Hf)|specialize (HbN Hn)]; lia. }
+    rewrite (run_forward false (max_iters + 2) X k x Hi Hu); [|intros _; lia|lia].
+    replace (max_iters + 2 - k)%nat with (S (max_iters + 1 - k)) by lia.
+    cbn [gni_loop].
+    assert (negb (is_fixed method) && (max_iters <? k)%nat = false) as ->.
+    { apply andb_false_intro2. apply Nat.ltb_ge. lia. }
+    rewrite He. reflexivity.
+  Qed.
+
+  Lemma gni_final_iff_input_has_no_envelopes : forall X p n, in_range ->
+    (loop X = Imf p false n <-> envs X = None /\ p = X /\ n = 1%nat).
+  Proof.
+    intros X p n Hr. split.
+    - intros HL.
+      destruct (gni_cases_strong false X Hr) as [(k & x & u & l & H1 & H2 & H3 & H4 & H5 & H6 & H7)
+                                        |[(k & x & H1 & H2 & H3 & H4 & H5 & H6)|(_ & _ & H)]];
+        [rewrite H7 in HL; discriminate | rewrite H6 in HL | rewrite H in HL; discriminate].
+      inversion HL as [[Hp Hflag Hn]]. 
+      destruct k as [|k]; [|discriminate Hflag].
+      cbn in H1. inversion H1; subst. auto.
+    - intros (He & -> & ->).
+      apply (gni_first_without_envelopes X 0 X); auto.
+      + intros _; lia.
+      + apply unfired_0.
+  Qed.
+
+  Lemma gni_converge_error_iff : forall X n, in_range ->
+    (loop X = ConvergeError n <-> method <> Fixed /\ n = S max_iters /\ unfired (S max_iters) X).
+  Proof.
+    intros X n Hr. split.
+    - intros HL.
+      destruct (gni_cases_strong false X Hr) as [(k & x & u & l & H1 & H2 & H3 & H4 & H5 & H6 & H7)
+                                        |[(k & x & H1 & H2 & H3 & H4 & H5 & H6)|(Hn & Hu & H)]];
+        [rewrite H7 in HL; discriminate | rewrite H6 in HL; discriminate | rewrite H in HL].
+      inversion HL; subst. auto.
+    - intros (Hn & -> & Hu).
+      destruct (Hu max_iters (Nat.lt_succ_diag_r _)) as (xm & u & l & Him & Hem & _).
+      pose proof (iterate_S _ _ _ _ _ Him Hem) as HiS.
+      rewrite (run_forward false (max_iters + 2) X _ _ HiS Hu); [|intros _; lia|lia].
+      replace (max_iters + 2 - S max_iters)%nat with 1%nat by lia.
+      cbn [gni_loop].
+      assert (negb (is_fixed method) && (max_iters <? S max_iters)%nat = true) as ->.
+      { apply andb_true_iff. split.
+        - apply negb_true_iff. apply is_fixed_false_iff. exact Hn.
+        - apply Nat.ltb_lt. lia. }
+      reflexivity.
+  Qed.
+
+  Lemma gni_no_unconverged_return : forall X p f n, in_range -> loop X = Imf p f n ->
+    exists x, iter (n - 1) X = Some x /\ (1 <= n)%nat /\
+      ((exists u l, envs x = Some (u, l) /\ fires (n - 1) x = true /\ p = vsub x (vavg u l)) \/
+       (envs x = None /\ p = x)).
+  Proof.
+    intros X p f n Hr HL.
+    destruct (gni_cases_strong false X Hr) as [(k & x & u & l & H1 & H2 & H3 & H4 & H5 & H6 & H7)
+                                        |[(k & x & H1 & H2 & H3 & H4 & H5 & H6)|(_ & _ & H)]];
+      [rewrite H7 in HL | rewrite H6 in HL | rewrite H in HL; discriminate];
+      inversion HL as [[Hp Hfl Hn]]; clear HL; exists x;
+      replace (S k - 1)%nat with k by lia; (split; [assumption|split; [lia|]]).
+    - left. exists u, l. auto.
+    - right. auto.
+  Qed.
+
+  Local Notation gni := (get_next_imf V vsub vstep vavg envs stop_sd stop_ril energy_fires method max_iters use_energy).
+
+  Lemma energy_only_clears_flag : forall X p f n,
+    gni X = Imf p f n ->
+    exists f0, loop X = Imf p f0 n /\ (f = true -> f0 = true) /\ (use_energy = false -> f = f0) /\
+               (f0 = true -> f = false -> energy_fires X (vsub X p) = true).
+  Proof.
+    intros X p f n H. unfold get_next_imf, get_next_imf_gen in H.
+    destruct (loop X) as [p0 f0 n0| |] eqn:EL; try discriminate.
+    inversion H; subst; clear H. exists f0. split; [reflexivity|].
+    destruct f0, use_energy, (energy_fires X (vsub X p)); cbn; repeat split; congruence.
+  Qed.
+
+  (* the extraction contract *)
+  Lemma gni_flag_contract : forall X p n, in_range ->
+    get_next_imf V vsub vstep vavg envs stop_sd stop_ril energy_fires method max_iters false X = Imf p false n ->
+    p = X /\ envs X = None.
+  Proof.
+    intros X p n Hr H. unfold get_next_imf, get_next_imf_gen in H.
+    destruct (loop X) as [p0 f0 n0| |] eqn:EL; try discriminate.
+    cbn [andb negb] in H. rewrite andb_true_r in H. inversion H; subst; clear H.
+    apply (gni_final_iff_input_has_no_envelopes X p n Hr) in EL. tauto.
+  Qed.
+
+  Lemma gni_flag_contract_energy : forall X p n, in_range ->
+    get_next_imf V vsub vstep vavg envs stop_sd stop_ril energy_fires method max_iters true X = Imf p false n ->
+    (p = X /\ envs X = None) \/ energy_fires X (vsub X p) = true.
+  Proof.
+    intros X p n Hr H. unfold get_next_imf, get_next_imf_gen in H.
+    destruct (loop X) as [p0 f0 n0| |] eqn:EL; try discriminate.
+    cbn [andb] in H. inversion H as [[Hp Hflag Hn]]. subst p0 n0.
+    destruct f0.
+    - right. cbn [andb] in Hflag. apply negb_false_iff in Hflag. exact Hflag.
+    - left. apply (gni_final_iff_input_has_no_envelopes X p n Hr) in EL. tauto.
+  Qed.
+
+  (* a property preserved by both updates holds of whatever comes back *)
+  Lemma gni_loop_preserves : forall (P : V -> Prop) v0,
+    (forall x u l, P x -> envs x = Some (u, l) -> P (vsub x (vavg u l)) /\ P (vsub x (vstep (vavg u l)))) ->
+    forall fuel k x p f n, P x -> loopg v0 fuel k x = Imf p f n -> P p.
+  Proof.
+    intros P v0 HP. induction fuel as [|fu IH]; intros k x p f n Hx H.
+    - discriminate.
+    - cbn [gni_loop] in H.
+      destruct (negb (is_fixed method) && (max_iters <? k)%nat); [discriminate|].
+      destruct (envs x) as [[u l]|] eqn:Ee.
+      + destruct (HP x u l Hx Ee) as [HP1 HP2].
+        destruct (sfires (S k) x (vsub x (vavg u l)) u l).
+        * inversion H; subst. exact HP1.
+        * apply (IH _ _ _ _ _ HP2 H).
+      + inversion H; subst. exact Hx.
+  Qed.
+
+  Lemma gni_gen_preserves : forall (P : V -> Prop) v0,
+    (forall x u l, P x -> envs x = Some (u, l) -> P (vsub x (vavg u l)) /\ P (vsub x (vstep (vavg u l)))) ->
+    forall X p f n, P X ->
+      get_next_imf_gen V vsub vstep vavg envs stop_sd stop_ril energy_fires method max_iters use_energy v0 X = Imf p f n -> P p.
+  Proof.
+    intros P v0 HP X p f n HX H. unfold get_next_imf_gen in H.
+    destruct (loopg v0 (max_iters + 2)%nat 0%nat X) as [p0 f0 n0| |] eqn:EL; try discriminate.
+    inversion H; subst. apply (gni_loop_preserves P v0 HP _ _ _ _ _ _ HX EL).
+  Qed.
+End ExtractionFacts.
+
+(* ---- the outer loop ----------------------------------------------------------------------- *)
+Section PeelFacts.
+  Variable V : Type.
+  Variable wf : V -> Prop.
+  Variable vzero : V.
+  Variable vadd vsub : V -> V -> V.
+  Variable small : V -> bool.
+  Variable extract : nat -> list V -> V -> gni_result V.
+
+  Hypothesis wf_zero : wf vzero.
+  Hypothesis wf_add : forall a b, wf a -> wf b -> wf (vadd a b).
+  Hypothesis wf_sub : forall a b, wf a -> wf b -> wf (vsub a b).
+  Hypothesis add_zero_l : forall a, wf a -> vadd vzero a = a.
+  Hypothesis add_sub_cancel : forall a b, wf a -> wf b -> vadd b (vsub a b) = a.
+  Hypothesis extract_wf : forall n acc r p f k, wf r -> extract n acc r = Imf p f k -> wf p.
+
+  Local Notation vsum := (vsum V vzero vadd).
+  Local Notation residual := (residual V vzero vadd vsub).
+  Local Notation peel := (peel_loop V vzero vadd vsub small extract).
+
+  (* how the loop can end, with an arbitrary invariant on the accumulator *)
+  Lemma peel_cases : forall (Inv : list V -> Prop) cap X,
+    (forall acc nxt flag n, Inv acc -> extract (length acc) acc (residual X acc) = Imf nxt flag n ->
+                            Inv (acc ++ [nxt])) ->
+    forall fuel acc imfs e, Inv acc -> peel fuel cap X acc = (imfs, e) ->
+    (exists init nxt flag n, Inv init /\ imfs = init ++ [nxt] /\
+        extract (length init) init (residual X init) = Imf nxt flag n /\
+        cap_hit e = match cap with Some k => Nat.eqb (length imfs) k | None => false end /\
+        small_hit e = small nxt /\ flag_stop e = negb flag /\ raised e = false /\ out_of_fuel e = false /\
+        cap_hit e || small_hit e || flag_stop e = true)
+    \/ (Inv imfs /\ cap_hit e = false /\ small_hit e = false /\ flag_stop e = false /\
+        (raised e = true \/ out_of_fuel e = true)).
+  Proof.
+    intros Inv cap X Hstep. induction fuel as [|f IH]; intros acc imfs e Hacc H.
+    - cbn [peel_loop] in H. inversion H; subst; clear H. right. cbn. auto 10.
+    - cbn [peel_loop] in H.
+      destruct (extract (length acc) acc (residual X acc)) as [nxt flag n| |] eqn:Ee.
+      + destruct ((match cap with Some k => Nat.eqb (length (acc ++ [nxt])) k | None => false end)
+                  || small nxt || negb flag) eqn:Eb.
+        * inversion H; subst; clear H. left. exists acc, nxt, flag, n. cbn. auto 12.
+        * apply (IH (acc ++ [nxt])); [|exact H]. apply (Hstep acc nxt flag n Hacc Ee).
+      + inversion H; subst; clear H. right. cbn. auto 10.
+      + inversion H; subst; clear H. right. cbn. auto 10.
+  Qed.
+
+  Lemma peel_inv : forall (Inv : list V -> Prop) cap X,
+    (forall acc nxt flag n, Inv acc -> extract (length acc) acc (residual X acc) = Imf nxt flag n ->
+                            Inv (acc ++ [nxt])) ->
+    forall fuel acc imfs e, Inv acc -> peel fuel cap X acc = (imfs, e) -> Inv imfs.
+  Proof.
+    intros Inv cap X Hstep fuel acc imfs e Hacc H.
+    destruct (peel_cases Inv cap X Hstep fuel acc imfs e Hacc H)
+      as [(init & nxt & flag & n & Hi & -> & He & _)|(Hi & _)].
+    - apply (Hstep init nxt flag n Hi He).
+    - exact Hi.
+  Qed.
+
+  Lemma sift_residual_inv : forall fuel cap X imfs e k,
+    peel fuel cap X [] = (imfs, e) -> (k < length imfs)%nat ->
+    exists f n, extract k (firstn k imfs) (residual X (firstn k imfs)) = Imf (nth k imfs vzero) f n.
+  Proof.
+    intros fuel cap X imfs e k H.
+    revert k.
+    apply (peel_inv (fun acc => forall k, (k < length acc)%nat ->
+             exists f n, extract k (firstn k acc) (residual X (firstn k acc)) = Imf (nth k acc vzero) f n)
+             cap X) with (fuel := fuel) (acc := @nil V) (e := e); [| |exact H].
+    - intros acc nxt flag n Hacc He k Hk. rewrite app_length in Hk. cbn [length] in Hk.
+      destruct (Nat.eq_dec k (length acc)) as [->|Hne].
+      + rewrite firstn_app, firstn_all, Nat.sub_diag. cbn [firstn]. rewrite app_nil_r.
+        rewrite app_nth2 by lia. rewrite Nat.sub_diag. cbn [nth]. exists flag, n. exact He.
+      + assert (Hlt : (k < length acc)%nat) by lia.
+        rewrite firstn_app. replace (k - length acc)%nat with 0%nat by lia. cbn [firstn]. rewrite app_nil_r.
+        rewrite app_nth1 by exact Hlt. apply Hacc. exact Hlt.
+    - intros k Hk. cbn in Hk. lia.
+  Qed.
+
+  (* the loop ends with a cleared flag only right after an extraction that cleared it *)
+  Lemma sift_last_extract : forall fuel cap X imfs e,
+    peel fuel cap X [] = (imfs, e) -> flag_stop e = true ->
+    exists init p n, imfs = init ++ [p] /\ extract (length init) init (residual X init) = Imf p false n.
+  Proof.
+    intros fuel cap X imfs e H Hfl.
+    destruct (peel_cases (fun _ => True) cap X (fun _ _ _ _ _ _ => I) fuel [] imfs e I H)
+      as [(init & nxt & flag & n & _ & -> & He & _ & _ & Hf & _)|(_ & _ & _ & Hf & _)].
+    - rewrite Hfl in Hf. destruct flag; [discriminate|]. exists init, nxt, n. auto.
+    - rewrite Hfl in Hf. discriminate.
+  Qed.
+
+  Lemma sift_last_is_residual : forall fuel cap X imfs e,
+    (forall n acc r p k, extract n acc r = Imf p false k -> p = r) ->
+    peel fuel cap X [] = (imfs, e) -> flag_stop e = true ->
+    exists init p, imfs = init ++ [p] /\ p = residual X init.
+  Proof.
+    intros fuel cap X imfs e Hc H Hfl.
+    destruct (sift_last_extract fuel cap X imfs e H Hfl) as (init & p & n & -> & He).
+    exists init, p. split; [reflexivity|]. apply (Hc _ _ _ _ _ He).
+  Qed.
+
+  Lemma sift_exit_reasons : forall fuel cap X imfs e,
+    peel fuel cap X [] = (imfs, e) ->
+    out_of_fuel e = false -> raised e = false ->
+    cap_hit e = true \/ small_hit e = true \/ flag_stop e = true.
+  Proof.
+    intros fuel cap X imfs e H Ho Hr.
+    destruct (peel_cases (fun _ => True) cap X (fun _ _ _ _ _ _ => I) fuel [] imfs e I H)
+      as [(init & nxt & flag & n & _ & _ & _ & _ & _ & _ & _ & _ & Hb)|(_ & _ & _ & _ & [Hx|Hx])].
+    - apply orb_true_iff in Hb. destruct Hb as [Hb|Hb]; [|auto].
+      apply orb_true_iff in Hb. destruct Hb as [Hb|Hb]; auto.
+    - congruence.
+    - congruence.
+  Qed.
+
+  Lemma sift_cap_hit_only_with_cap : forall fuel X imfs e,
+    peel fuel None X [] = (imfs, e) -> cap_hit e = false.
+  Proof.
+    intros fuel X imfs e H.
+    destruct (peel_cases (fun _ => True) None X (fun _ _ _ _ _ _ => I) fuel [] imfs e I H)
+      as [(init & nxt & flag & n & _ & _ & _ & Hc & _)|(_ & Hc & _)]; exact Hc.
+  Qed.
+
+  Lemma wf_fold : forall l a, wf a -> Forall wf l -> wf (fold_left vadd l a).
+  Proof.
+    induction l as [|x l IH]; intros a Ha Hl; cbn [fold_left]; [exact Ha|].
+    inversion Hl; subst. apply IH; auto.
+  Qed.
+
+  Lemma wf_vsum : forall l, Forall wf l -> wf (vsum l).
+  Proof. intros l Hl. unfold SiftCore.vsum. apply wf_fold; auto. Qed.
+
+  Lemma wf_residual : forall X acc, wf X -> Forall wf acc -> wf (residual X acc).
+  Proof.
+    intros X acc HX Hacc. unfold SiftCore.residual. destruct acc as [|a t]; [exact HX|].
+    apply wf_sub; [exact HX|]. apply wf_vsum. exact Hacc.
+  Qed.
+
+  Lemma sift_complete : forall fuel cap X imfs e, wf X ->
+    (forall n acc r p k, extract n acc r = Imf p false k -> p = r) ->
+    peel fuel cap X [] = (imfs, e) -> flag_stop e = true ->
+    vsum imfs = X.
+  Proof.
+    intros fuel cap X imfs e HX Hc H Hfl.
+    assert (Hstep : forall acc nxt flag n, Forall wf acc ->
+               extract (length acc) acc (residual X acc) = Imf nxt flag n -> Forall wf (acc ++ [nxt])).
+    { intros acc nxt flag n Hacc He. apply Forall_app. split; [exact Hacc|].
+      constructor; [|constructor]. apply (extract_wf _ _ _ _ _ _ (wf_residual X acc HX Hacc) He). }
+    destruct (peel_cases (Forall wf) cap X Hstep fuel [] imfs e (Forall_nil _) H)
+      as [(init & nxt & flag & n & Hi & -> & He & _ & _ & Hf & _)|(_ & _ & _ & Hf & _)].
+    - rewrite Hfl in Hf. destruct flag; [discriminate|].
+      apply Hc in He. subst nxt.
+      unfold SiftCore.vsum. rewrite fold_left_app. cbn [fold_left].
+      change (fold_left vadd init vzero) with (vsum init).
+      destruct init as [|a t].
+      + cbn. apply add_zero_l. exact HX.
+      + cbn [SiftCore.residual]. apply add_sub_cancel; [exact HX|]. apply wf_vsum. exact Hi.
+    - rewrite Hfl in Hf. discriminate.
+  Qed.
+End PeelFacts.
+
+(* ---- the integer-list instance --------------------------------------------------------------- *)
+Open Scope Z_scope.
+
+Lemma zip_with_length : forall f a b, length (zip_with f a b) = Nat.min (length a) (length b).
+Proof.
+  intros f. induction a as [|x a IH]; intros b; [reflexivity|].
+  destruct b as [|y b]; [reflexivity|]. cbn [zip_with length Nat.min]. rewrite IH. reflexivity.
+Qed.
+
+Lemma vadd_zero_l : forall a, Toys.vadd (Toys.vzero (length a)) a = a.
+Proof.
+  induction a as [|x a IH]; [reflexivity|].
+  unfold Toys.vadd, Toys.vzero in *. cbn [length repeat zip_with]. rewrite IH. reflexivity.
+Qed.
+
+Lemma vadd_vsub_cancel : forall a b, length a = length b -> Toys.vadd b (Toys.vsub a b) = a.
+Proof.
+  unfold Toys.vadd, Toys.vsub.
+  induction a as [|x a IH]; intros b Hl; destruct b as [|y b]; try discriminate; [reflexivity|].
+  cbn [zip_with]. cbn [length] in Hl. rewrite IH by lia. f_equal. lia.
+Qed.
+
+Lemma zvec_group_laws : forall N (a b : list Z), length a = N -> length b = N ->
+  length (Toys.vadd a b) = N /\ length (Toys.vsub a b) = N /\
+  Toys.vadd (Toys.vzero N) a = a /\ Toys.vadd b (Toys.vsub a b) = a.
+Proof.
+  intros N a b Ha Hb. unfold Toys.vadd at 1, Toys.vsub at 1. rewrite !zip_with_length.
+  rewrite Ha, Hb, Nat.min_id. repeat split.
+  - rewrite <- Ha. apply vadd_zero_l.
+  - apply vadd_vsub_cancel. lia.
+Qed.
+
+Lemma toy_envs_length : forall r x u l, toy_envs r x = Some (u, l) ->
+  length u = length x /\ length l = length x.
+Proof.
+  intros r x u l H. unfold toy_envs in H.
+  destruct ((nmaxima x <? 2)%nat || (nminima x <? 2)%nat); [discriminate|].
+  inversion H; subst. unfold toy_mean. rewrite !map_length, seq_length. auto.
+Qed.
+
+Lemma toy_gni_preserves_length : forall c v0 X p f n,
+  toy_gni c v0 X = Imf p f n -> length p = length X.
+Proof.
+  intros c v0 X p f n H. unfold toy_gni in H.
+  refine (gni_gen_preserves _ _ _ _ _ _ _ _ _ _ _ (fun v => length v = length X) v0 _ X p f n eq_refl H).
+  intros x u l Hx He. apply toy_envs_length in He. destruct He as [Hu Hl].
+  unfold Toys.vsub, Toys.vavg, vscale. rewrite !zip_with_length, map_length, zip_with_length.
+  rewrite Hu, Hl, Hx. rewrite !Nat.min_id. auto.
+Qed.
+
+Lemma toy_sift_complete : forall c fuel X imfs e,
+  cg c 5 <> 1 -> (cg c 1 <> 0 -> cg c 1 <> 1 -> 1 <= cg c 2) ->
+  toy_sift c false fuel X = (imfs, e) -> flag_stop e = true ->
+  vsum (list Z) (Toys.vzero (length X)) Toys.vadd imfs = X /\
+  exists init p, imfs = init ++ [p] /\ ((nmaxima p < 2)%nat \/ (nminima p < 2)%nat).
+Proof.
+  intros c fuel X imfs e H5 Hr H Hfl. unfold toy_sift in H.
+  assert (Hcontract : forall r p k, toy_gni c false r = Imf p false k -> p = r /\ toy_envs (cg c 0) r = None).
+  { intros r p k Hg. unfold toy_gni in Hg.
+    assert ((cg c 5 =? 1) = false) as E5 by (apply Z.eqb_neq; exact H5).
+    rewrite E5 in Hg.
+    refine (gni_flag_contract _ _ _ _ _ _ _ _ _ _ r p k _ Hg).
+    intros Hm. unfold method_of in Hm.
+    destruct (Z.eqb_spec (cg c 1) 0) as [|H0]; [discriminate|].
+    destruct (Z.eqb_spec (cg c 1) 1) as [|H1]; [discriminate|].
+    specialize (Hr H0 H1). lia. }
+  split.
+  - refine (sift_complete (list Z) (fun v => length v = length X) _ _ _ _ _ _ _ _ _ _ _ fuel _ X imfs e eq_refl _ H Hfl).
+    + unfold Toys.vzero. apply repeat_length.
+    + intros a b Ha Hb. apply (zvec_group_laws (length X) a b Ha Hb).
+    + intros a b Ha Hb. apply (zvec_group_laws (length X) a b Ha Hb).
+    + intros a Ha. apply (zvec_group_laws (length X) a a Ha Ha).
+    + intros a b Ha Hb. apply (zvec_group_laws (length X) a b Ha Hb).
+    + intros n acc r p f k Hrl Hg. rewrite (toy_gni_preserves_length _ _ _ _ _ _ Hg). exact Hrl.
+    + intros n acc r p k Hg. apply (Hcontract r p k Hg).
+  - destruct (sift_last_extract _ _ _ _ _ _ _ _ _ _ _ H Hfl) as (init & p & n & -> & He).
+    exists init, p. split; [reflexivity|].
+    destruct (Hcontract _ _ _ He) as [Hp Hn]. rewrite <- Hp in Hn.
+    unfold toy_envs in Hn.
+    destruct ((nmaxima p <? 2)%nat || (nminima p <? 2)%nat) eqn:Eb; [|discriminate].
+    apply orb_true_iff in Eb. destruct Eb as [Eb|Eb]; apply Nat.ltb_lt in Eb; auto.
+Qed.
+
+Lemma no_envelope_iff_few_extrema : forall x p m,
+  get_padded_extrema x p m = NoExtrema <-> (length (fst (extrema m x)) <= 1)%nat.
+Proof. exact ExtremaFacts.no_extrema_iff. Qed.
+
+(* ---- the concrete stopping rules ------------------------------------------------------------- *)
+Lemma sumsq_nonneg : forall v, 0 <= sumsq v.
+Proof.
+  unfold sumsq. induction v as [|x v IH]; cbn [map zsum]; [lia|nia].
+Qed.
+
+Lemma sd_stop_spec : forall sn sd_ proto x1, 0 < sd_ ->
+  (sd_stop sn sd_ proto x1 = true <->
+   0 < sumsq proto /\ ((sumsq (Toys.vsub proto x1) # 1) / (sumsq proto # 1) < sn # Z.to_pos sd_)%Q).
+Proof.
+  intros sn sd_ proto x1 Hsd. unfold sd_stop.
+  pose proof (sumsq_nonneg proto) as Hb.
+  remember (sumsq (Toys.vsub proto x1)) as a eqn:Ea. clear Ea.
+  remember (sumsq proto) as b eqn:Eb. clear Eb.
+  destruct b as [|pb|pb].
+  - cbn [Z.eqb negb andb]. split; [discriminate|intros [H _]; lia].
+  - cbn [Z.eqb negb andb]. rewrite Z.ltb_lt.
+    unfold Qlt, Qdiv, Qmult, Qinv. cbn [Qnum Qden]. rewrite Z2Pos.id by lia.
+    rewrite Pos.mul_1_l, Z.mul_1_r. split; [intros H; split; [lia|exact H]|intros [_ H]; exact H].
+  - lia.
+Qed.
+
+Lemma ril_exceeds_spec : forall tn td u l, 0 < td -> u <> l ->
+  (ril_exceeds tn td u l = true <-> (tn # Z.to_pos td < (Z.abs (u + l) # 1) / (Z.abs (u - l) # 1))%Q).
+Proof.
+  intros tn td u l Htd Hul. unfold ril_exceeds.
+  destruct (Z.eqb_spec (u - l) 0) as [E|E]; [lia|].
+  assert (Hd : 0 < Z.abs (u - l)) by lia.
+  remember (Z.abs (u + l)) as a eqn:Ea. clear Ea.
+  remember (Z.abs (u - l)) as b eqn:Eb. clear Eb.
+  destruct b as [|pb|pb]; try lia.
+  rewrite Z.ltb_lt.
+  unfold Qlt, Qdiv, Qmult, Qinv. cbn [Qnum Qden]. rewrite Z2Pos.id by lia.
+  rewrite Pos.mul_1_l, Z.mul_1_r. reflexivity.
+Qed.
+
+Lemma existsb_map_false : forall (A : Type) (f : A -> bool) l,
+  existsb (fun b => b) (map f l) = false <-> forall x, In x l -> f x = false.
+Proof.
+  intros A f. induction l as [|a l IH]; cbn [map existsb].
+  - split; [intros _ x []|reflexivity].
+  - rewrite orb_false_iff, IH. split.
+    + intros [Ha Hl] x [<-|Hx]; auto.
+    + intros H. split; [apply H; left; reflexivity|intros x Hx; apply H; right; exact Hx].
+Qed.
+
+Lemma rilling_stop_spec : forall s1n s1d s2n s2d tn td u l,
+  (rilling_stop s1n s1d s2n s2d tn td u l = true <->
+   Z.of_nat (count_true (map (fun ul => ril_exceeds s1n s1d (fst ul) (snd ul)) (combine u l))) * td
+     <= tn * Z.of_nat (length (combine u l)) /\
+   forall a b, In (a, b) (combine u l) -> ril_exceeds s2n s2d a b = false).
+Proof.
+  intros s1n s1d s2n s2d tn td u l. unfold rilling_stop.
+  rewrite negb_true_iff, orb_false_iff, Z.ltb_ge, map_length, existsb_map_false.
+  split; intros [H1 H2]; (split; [exact H1|]).
+  - intros a b Hab. apply (H2 (a, b) Hab).
+  - intros [a b] Hab. apply (H2 a b Hab).
+Qed.
+
+(* ---- concrete runs ----------------------------------------------------------------------------- *)
+Lemma c04_outcomes_occur :
+  run_toy_gni [0; 0; 20; 1; 1; 0; 1; 1024; 1; 16; 1; 2; 1; 16; 1; 0; 0]
+              [0; 40; -36; 44; -28; 36; -40; 32; -20; 12; 0; 24; -16; 8]
+    = [0; 1; 6; -8; 24; -28; 36; -32; 36; -32; 32; -20; 16; -12; 16; -12; 8]
+  /\ run_toy_gni [0; 0; 20; 1; 1; 0; 1; 8; 1; 16; 1; 2; 1; 16; 1; 0; 0] [0; 4; 8; 12; 16]
+    = [0; 0; 1; 0; 4; 8; 12; 16]
+  /\ run_toy_gni [0; 0; 2; 1; 4; 0; 1; 1024; 1; 16; 1; 2; 1; 16; 1; 0; 0]
+              [0; 40; -36; 44; -28; 36; -40; 32; -20; 12; 0; 24; -16; 8]
+    = [5; 3].
+Proof. vm_compute. repeat split; reflexivity. Qed.
+
+Lemma sift_complete_v0_refuted : exists c X imfs e,
+  toy_sift c true 60 X = (imfs, e) /\ flag_stop e = true /\ cap_hit e = false /\ small_hit e = false /\
+  vsum (list Z) (Toys.vzero (length X)) Toys.vadd imfs <> X.
+Proof.
+  exists [2; 0; 20; 1; 1; 0; 1; 8; 1; 16; 1; 2; 1; 16; 1; 0; 0],
+         [0; 40; -36; 44; -28; 36; -40; 32; -20; 12; 0; 24; -16; 8].
+  eexists. eexists. split; [vm_compute; reflexivity|].
+  vm_compute. repeat split; try reflexivity. discriminate.
+Qed.
+
+Lemma c01_premises_hold : exists imfs e,
+  toy_sift [0; 0; 20; 1; 1; 0; 1; 8; 1; 16; 1; 2; 1; 16; 1; 0; 0] false 60
+           [0; 40; -36; 44; -28; 36; -40; 32; -20; 12; 0; 24; -16; 8] = (imfs, e) /\
+  flag_stop e = true /\ (2 <= length imfs)%nat.
+Proof.
+  eexists. eexists. split; [vm_compute; reflexivity|].
+  vm_compute. split; [reflexivity|]. apply le_n.
+Qed.
